@@ -157,12 +157,55 @@ Inductive forv_res : Type :=
 | FVErrInit | FVErrLimit | FVErrStep     (* "'for' initial value/limit/step: expected number, got ..." *)
 | FVRes (r : for_res).
 
+(* prepfor when the start or the step register held a (numeric) string: after the zero-step test the loop is
+   a float loop whatever the numeric types (runtime/luacont.go prepfor: `tstart == IsInt && tstep == IsInt &&
+   !startIsString && !stepIsString` selects the integer loop) *)
+Definition prepfor_float (start stop step : num) : prep_res :=
+  if isZero step then PErrZero else
+  let fs := tofloat start in let fl := tofloat stop in let fst := tofloat step in
+  let done := if flt fzero0 fst then negb (fle fs fl) else negb (fle fl fs) in
+  if done then PSkip else PStart (NFlt fs) (NFlt fl) (NFlt fst).
+
+Definition prepfor_v (anystr : bool) : num -> num -> num -> prep_res :=
+  if anystr then prepfor_float else prepfor.
+
+Definition for_im_gen (anystr : bool) (fuel : nat) (start stop step : num) : for_res :=
+  match prepfor_v anystr start stop step with
+  | PErrZero => FErrZero
+  | PSkip => FRun [] true
+  | PStart s l st => let '(vs, fin) := run_loop fuel s l st in FRun vs fin
+  end.
+
+Definition fv_is_str (v : forval) : bool := match v with FVConv _ => true | _ => false end.
+
 (* prepfor on values: ToNumberValue on the three registers, error naming the first non-number in the
-   order start, limit, step; then the numeric prepfor *)
+   order start, limit, step; then the numeric prepfor, a float loop if start or step was a string *)
 Definition for_im_val (fuel : nat) (start stop step : forval) : forv_res :=
   match fv_num start, fv_num stop, fv_num step with
   | None, _, _ => FVErrInit
   | Some _, None, _ => FVErrLimit
   | Some _, Some _, None => FVErrStep
-  | Some a, Some b, Some c => FVRes (for_im fuel a b c)
+  | Some a, Some b, Some c => FVRes (for_im_gen (fv_is_str start || fv_is_str step) fuel a b c)
   end.
+
+(* S on values: the loop is an integer loop only if the initial value and the step ARE integers; a
+   numeric string is not an integer, so it makes a float loop ("otherwise, the three values are converted
+   to floats"; PUC-Lua 5.3/5.4 behave so: for i="1",2 yields 1.0, 2.0).  A string limit is just its number. *)
+Definition fv_is_int (v : forval) : bool := match v with FVNum (NInt _) => true | _ => false end.
+
+Definition for_s_val (fuel : nat) (start stop step : forval) : forv_res :=
+  match fv_num start, fv_num stop, fv_num step with
+  | None, _, _ => FVErrInit
+  | Some _, None, _ => FVErrLimit
+  | Some _, Some _, None => FVErrStep
+  | Some a, Some b, Some c =>
+      if fv_is_int start && fv_is_int step then FVRes (for_s fuel a b c)
+      else FVRes (for_s fuel (NFlt (tofloat a)) b (NFlt (tofloat c)))
+  end.
+
+(* the former defect class (finding C16-string-start-step-integer-loop, repaired): a numeric string that
+   denotes an integer in the start or step position while both denote integers: golua used to run an integer loop *)
+Definition fv_conv_int (v : forval) : bool := match v with FVConv (NInt _) => true | _ => false end.
+Definition fv_denotes_int (v : forval) : bool := match fv_num v with Some (NInt _) => true | _ => false end.
+Definition string_loop_defect (start step : forval) : bool :=
+  (fv_conv_int start || fv_conv_int step) && fv_denotes_int start && fv_denotes_int step.
